@@ -597,8 +597,8 @@ def use_at(g, name, TJ, R, env):
         argTs.append(S[1])
         S = S[2]
     call = "(" + " ".join(["(%s::%s)" % (name, ty_str(TJ))] + [g.term(A, 1, env) for A in argTs]) + ")"
-    if S == R:
-        return call
+    if S == R:       # as hostile as the type allows: no fixed point
+        return "(~%s)" % call if R == BOOL else ("(Suc %s)" % call if R == NAT else call)
     if R == BOOL:
         return "(%s = %s)" % (call, call)
     return "(if %s = %s then %s else %s)" % (call, call, g.term(R, 1, env), g.term(R, 1, env))
